@@ -274,7 +274,7 @@ def run(ctx):
                 traces.append(run_history("raw" if (len(traces) % 2 == 0) else "reactor", h))
     ctx.exhaustive = True
     ctx.extra["exhaustive_configs_upto_triggers"] = nmax
-    nrand = ctx.pick(500, 60000)
+    nrand = ctx.pick(500, 30000)
     for i in range(nrand):
         traces.append(random_history(ctx.rng, ctx.rng.choice(["raw", "reactor"]), ctx.rng.randint(6, 60), 20))
     behs = ctx.simulate("ThreePhaseSim", "ThreePhaseSim.cfg", num=ctx.pick(150, 4000), depth=16)
